@@ -605,7 +605,15 @@ pub fn random_project(rng: &mut Rng, nfiles: usize, adversarial: bool, externs: 
     let ntypes = 1 + rng.below(3 + nfiles);
     let field_names = ["id", "user_name", "created_at", "count", "items", "meta_data", "is_active", "r_type"];
     for t in 0..ntypes {
-        let name = format!("{}{}", rng.pick(&["User", "Order", "Item", "Config", "Event", "Status", "Mode"]), t);
+        // stems include names ending in `Schema` / `Params`-like words and names of well-known std types used as *user* types
+        let name = if rng.chance(1, 8) {
+            (*rng.pick(&["TableSchema", "Path", "PathBuf", "Duration", "Value", "Params", "Channel0", "Result0", "OptionLike"])).to_string() + if t % 2 == 0 { "" } else { "X" }
+        } else {
+            format!("{}{}", rng.pick(&["User", "Order", "Item", "Config", "Event", "Status", "Mode"]), t)
+        };
+        if type_names.contains(&name) {
+            continue;
+        }
         let serde = rng.chance(7, 8) || !adversarial;
         let derive = if serde {
             rng.pick(&["derive(Debug, Clone, Serialize, Deserialize)", "derive(Serialize)", "derive(serde::Deserialize, Debug)"]).to_string()
@@ -761,7 +769,7 @@ pub fn random_project(rng: &mut Rng, nfiles: usize, adversarial: bool, externs: 
         let cmd_attr = *rng.pick(&["tauri::command", "tauri::command", "command", "tauri::command(rename_all = \"snake_case\")", "tauri::command(async)"]);
         let mut attrs = Vec::new();
         if rng.chance(1, 3) {
-            attrs.push(attr("allow(dead_code)"));
+            attrs.push(attr(*rng.pick(&["allow(dead_code)", "cfg(not(test))", "cfg(feature = \"testing\")", "inline", "cfg_attr(debug_assertions, allow(unused))", "must_use"])));
         }
         attrs.push(attr(cmd_attr));
         if rng.chance(1, 8) {
@@ -773,6 +781,41 @@ pub fn random_project(rng: &mut Rng, nfiles: usize, adversarial: bool, externs: 
         let f = rng.below(nfiles);
         items_per_file[f].push(json!({"k": "fn", "name": name, "attrs": attrs, "vis": rng.pick(&["pub", "", "pub(crate)"]),
             "async": rng.chance(1, 2), "params": params, "ret": ret, "body": body}));
+    }
+    // types that only an event payload reaches, the dependent sorting *before* its dependency
+    let mut extra_events: Vec<(String, Value)> = Vec::new();
+    if rng.chance(1, 3) {
+        let der = "derive(Debug, Clone, Serialize, Deserialize)";
+        let fld = |n: &str, t: RTy| json!({"name": n, "vis": "pub", "ty": ty_json(&t), "attrs": []});
+        let f1 = rng.below(nfiles);
+        items_per_file[f1].push(json!({"k": "struct", "name": "EvAlert", "attrs": [attr(der)], "shape": "named",
+            "fields": [fld("level", RTy::Named("EvLevel".into())), fld("history", RTy::Vec(Box::new(RTy::Named("EvLevel".into()))))]}));
+        let f2 = rng.below(nfiles);
+        items_per_file[f2].push(json!({"k": "struct", "name": "EvLevel", "attrs": [attr(der)], "shape": "named",
+            "fields": [fld("rank", RTy::Prim("u8".into()))]}));
+        extra_events.push(("alert-raised".to_string(), json!({"k": "struct", "segs": ["EvAlert"]})));
+        // an event spelled exactly like one of the types
+        extra_events.push(("EvLevel".to_string(), json!({"k": "struct", "segs": ["EvAlert"]})));
+    }
+    if !extra_events.is_empty() || rng.chance(1, 4) {
+        let f = rng.below(nfiles);
+        let mut body: Vec<Value> = Vec::new();
+        for (n, payload) in &extra_events {
+            body.push(json!({"k": "expr", "e": {"k": "mcall", "recv": {"k": "mcall", "recv": {"k": "path", "segs": ["app"]}, "method": "emit",
+                "args": [{"k": "lit", "text": format!("{:?}", n), "lit": "str", "value": n}, payload]}, "method": "ok", "args": []}}));
+        }
+        // a name that other functions bind with a type is bound here without one (the payload type is not evident)
+        let vname = *rng.pick(&["msg_v", "local_v", "r#type", "r#move"]);
+        if rng.chance(1, 2) {
+            body.push(json!({"k": "let", "pat": "ident", "name": vname, "init": {"k": "call", "func": {"k": "path", "segs": ["compute"]}, "args": []}}));
+        } else if !type_names.is_empty() {
+            body.push(json!({"k": "let", "pat": "typed", "name": vname, "ty": rng.pick(&type_names).clone(), "init": {"k": "call", "func": {"k": "path", "segs": ["make"]}, "args": []}}));
+        }
+        body.push(json!({"k": "expr", "e": {"k": "mcall", "recv": {"k": "mcall", "recv": {"k": "path", "segs": ["app"]}, "method": "emit",
+            "args": [{"k": "lit", "text": "\"late-binding\"", "lit": "str", "value": "late-binding"}, {"k": "ref", "e": {"k": "path", "segs": [vname]}}]}, "method": "ok", "args": []}}));
+        let fattr = *rng.pick(&["cfg(not(test))", "cfg(feature = \"testing\")", "cfg(test)", "inline", "allow(unused)", "doc = \" a test helper\"", "cfg(any(test, feature = \"latest\"))"]);
+        items_per_file[f].push(json!({"k": "fn", "name": "notify_extra", "attrs": [attr(fattr)], "vis": "pub", "async": false,
+            "params": [raw_param("app", "&tauri::AppHandle", "injected")], "ret": null, "body": body}));
     }
     // a dependency triangle with a transitive edge: TriA -> {TriB, TriC}, TriB -> TriC, reached through TriA first
     // (dependency-first emission must not emit TriB before TriC)
